@@ -308,7 +308,8 @@ def random_partition_alignment(rng, cspec, p_join=0.6):
 
 def build_alignment(cspec, aspec, continuum=None, soft=False, slot_order=None, check=False, disorder=None):
     """Build a library Alignment from an alignment spec (list of {annotator: index-or-None})."""
-    from pygamma_agreement import Alignment, SoftAlignment, UnitaryAlignment, Unit
+    from pygamma_agreement.alignment import Alignment, SoftAlignment, UnitaryAlignment
+    from pygamma_agreement.continuum import Unit
     from pyannote.core import Segment
     uas = []
     for tup in aspec:
